@@ -10,7 +10,6 @@ import io
 import os
 import tempfile
 
-import numpy as np
 import pandas as pd
 from hypothesis import strategies as st
 
